@@ -307,6 +307,13 @@ theorem recover_ok_is_group_signature (cd : Codec G) (f : List F) (hm : G) (t n 
   · injection h with h
     exact ⟨h.symm, Nat.le_of_not_lt h1, h2⟩
 
+/-- **`Recover` compacts the caller's slice in place** (`sliceUniqMap` writes `s[j] = v`); what is left in it
+is the same SET of entries, so a second `Recover` on the same slice object answers what the first did. -/
+theorem recover_after_in_place_compaction (cd : Codec G) (f : List F) (hm : G) (t n : Nat) (ht : 0 < t)
+    (hc : CharGt F n) (sigs : List Bytes) :
+    recover cd f hm (uniqInPlace sigs) t n = recover cd f hm sigs t n := by
+  rw [recover_eq_full cd f hm t n ht hc, recover_eq_full cd f hm t n ht hc sigs, members_uniqInPlace]
+
 /-- a share produced by `tbls.Sign` for member `i < n` is valid (given a codec that round-trips
 and an index that fits the 2-byte prefix) -/
 theorem signed_share_valid (cd : Codec G) (hcd : ∀ p, cd.decode (cd.encode p) = some p)
@@ -324,6 +331,20 @@ theorem signed_share_valid (cd : Codec G) (hcd : ∀ p, cd.decode (cd.encode p) 
   have : blsVerify cd (priEval f (i : Int)) hm (blsSign cd (priEval f (i : Int)) hm) = true := by
     rw [blsVerify_iff]; exact hcd _
   simp [hi, this]
+
+/-- **the wire format of a share has a 2-byte index**: for ANY member number `i` (also `i ≥ 2^16`) what
+`tbls.Sign` emits carries index `i mod 2^16` (`uint16(private.I)`) in front of `x_i • H(m)`. The format
+therefore addresses members `0 … 65535` only – a declared limit of the format (the same in dedis/kyber),
+not a defect of recovery: a share of member `i ≥ 2^16` is labelled with another member's number and is then
+an "other index" share, which `Verify` / `Recover` never count (`C03.oversize_member_share_never_counts`). -/
+theorem signed_share_index_truncated (cd : Codec G) (f : List F) (hm : G) (i : Nat) :
+    sigIndex (tblsSign cd f hm i) = some (i % 65536)
+    ∧ sigValue (tblsSign cd f hm i) = blsSign cd (priEval f (i : Int)) hm := by
+  constructor
+  · simp only [tblsSign, natBE, List.cons_append, sigIndex, List.nil_append]
+    simp only [UInt8.toNat_ofNat']
+    congr 1; omega
+  · simp [tblsSign, sigValue, natBE]
 
 /-! ### the driver's instance: scalars `Zq r` (a field for prime `r`) -/
 
@@ -420,5 +441,16 @@ example : blsSign toyCodec (4 : Zq 11) 2 = blsSign toyCodec (([(4 : Zq 11), 3]).
 /-- `hist_only_writes_change_state`: a `Recover` step over two entries leaves the buffer table alone -/
 example : (histTok 2 3 [(4 : Fr), 3] [(0, 5)] ["r", "0", "0000aa;0001bb"]).1 = [(0, 5)] :=
   hist_only_writes_change_state 2 3 _ _ _ (by decide)
+
+/-- `signed_share_index_truncated`: member 65538's share is labelled 2 -/
+example : sigIndex (tblsSign toyCodec [(4 : Zq 11), 3] 2 65538) = some 2 :=
+  (signed_share_index_truncated toyCodec [(4 : Zq 11), 3] 2 65538).1
+
+/-- `recover_after_in_place_compaction`: `[a, a, b]` is `[a, b, b]` in the caller's slice afterwards -/
+example : uniqInPlace [[0, 2, 4], [0, 2, 4], [0, 0, 3]] = [[0, 2, 4], [0, 0, 3], [0, 0, 3]] := by decide
+
+example : recover toyCodec [(4 : Zq 11), 3] 2 (uniqInPlace [[0, 2, 4], [0, 2, 4], [0, 0, 3]]) 2 3
+    = recover toyCodec [(4 : Zq 11), 3] 2 [[0, 2, 4], [0, 2, 4], [0, 0, 3]] 2 3 :=
+  recover_after_in_place_compaction toyCodec _ 2 2 3 (by decide) (zqCharGt 11 3 (by decide)) _
 
 end Dos.Props.C02
